@@ -95,11 +95,15 @@ CHECKS['C20'] = {
              '(changing interface / disk / partition sets, independent counter wraps, pid changes, pid 0, unseen sources, '
              'timestamps around the period, local and JSON round-tripped payloads); after every push depth, alignment, '
              'period gate (against a model of the reference times), CPU range, non-negative finite rates, dropped '
-             'history on pid 0 are checked in the structures and in the returned payloads.'),
+             'history on pid 0 are checked in the structures and in the returned payloads. Part b drives the real '
+             'ProcessStatisticsCollector (fake psutil, virtual clock) with generated start / new pid / stop / silent death '
+             '/ collect sequences against a reference model of the tracked processes: a stopped or replaced process is '
+             'published with pid 0 (what makes the compiler drop its history), a live one never is and keeps being sampled.'),
     'design_ref': 'DESIGN.md 5/C20',
     'note': ('Trusted: the stream generator (monotonic jiffies, CPU work consistent with the core count), the model of '
              'the period gate, Hypothesis. Bounds: 3 identifiers, 3 namespecs, stats_histo 10-13, <= 90 pushes per stream.'),
-    'technique': 'Hypothesis rule-based state machine with invariants after every step',
+    'technique': ('Hypothesis rule-based state machine with invariants after every step (compilers) + Hypothesis '
+                  'operation sequences against a reference model (collector)'),
 }
 
 CHECKS['C07'] = {
@@ -235,11 +239,14 @@ CHECKS['C17'] = {
              'BAD_SUPVISORS_STATE outside the documented states and not inside them, BAD_NAME for names absent from the '
              'whole configuration, INCORRECT_PARAMETERS for unknown strategies, NOT_MANAGED for unmanaged applications; a '
              'call rejected with one of these faults emits no request and leaves FSM state, Master, Starter / Stopper '
-             'activity unchanged. The (method x state) cells reached are listed in the evidence class distribution. One '
+             'activity unchanged. Whole rows of the matrix are generated too (rpc_sweep: every method on one '
+             'instance within one second; make_conflict builds the duplicates that hold CONCILIATION): the quick tier '
+             'reaches each of the 24 x 9 (method x state) cells, listed in the evidence class distribution. One '
              'defect repaired (restart_application on an unmanaged application).'),
     'design_ref': 'DESIGN.md 5/C17',
     'note': CLUSTER_NOTE,
-    'technique': 'Hypothesis-generated histories and XML-RPC storms on a cluster simulator, golden state-gating table',
+    'technique': ('Hypothesis-generated histories, XML-RPC storms and method x state matrix rows on a cluster '
+                  'simulator, golden state-gating table'),
 }
 
 CHECKS['C13'] = {
